@@ -372,7 +372,7 @@ Stratum(e) ==
   ELSE IF e.op \in ElemOps THEN ElemStratum(e.g, V(e.a))
   ELSE IF e.op = "bparts" THEN e.sub
   ELSE IF e.op = "fog" THEN e.storage \o "." \o e.jf
-  ELSE IF e.op = "dprod" THEN "static"
+  ELSE IF e.op = "dprod" THEN e.storage
   ELSE "-"
 
 ---------------------------------------------------------------------------
